@@ -477,4 +477,111 @@ class C11(Prop):
         return "%s lines=%s" % (("ok" if "endif" in case else "open"), n if n <= 4 else ("5-8" if n <= 8 else ("9-20" if n <= 20 else "21+")))
 
 
-PROPS = {p.id: p for p in [C06(), C19(), C11()]}
+# ---------------------------------------------------------------------------
+# C16: independent reading of the priority table in the header comment of typer/src/casting.rs
+# ---------------------------------------------------------------------------
+_FL = ["Float16", "Float32", "Float64"]
+_TIERS = {
+    "Bool": [["Bool"], ["UInt32", "Int32"] + _FL],
+    "Int32": [["Int32"], ["UInt32"], ["Bool"], _FL],
+    "IntLiteral": [["UInt32", "Int32"], ["Bool"], _FL],
+    "UInt32": [["UInt32"], ["Int32"], ["Bool"], _FL],
+    "Float16": [["Float16"], ["Float32"], ["Float64"], ["Bool", "Int32", "UInt32"]],
+    "Float32": [["Float32"], ["Float64"], ["Bool", "Int32", "UInt32", "Float16"]],
+    "Float64": [["Float64"], ["Bool", "Int32", "UInt32", "Float32", "Float16"]],
+    "FloatLiteral": [_FL, ["Bool", "Int32", "UInt32"]],
+}
+
+
+def _c16_type(w):
+    m = re.match(r"^([A-Za-z0-9]+?)(s|v[1-4])([olrc]*)$", w)
+    return m.group(1), (1 if m.group(2) == "s" else int(m.group(2)[1])), m.group(3)
+
+
+def _c16_conv(arg, par):
+    """(tier, vector rank) of converting arg to par, or None if not viable."""
+    asc, ad, af = arg
+    psc, pd, pf = par
+    lv = "l" in af
+    if "o" in pf:
+        if not lv or asc != psc or ad != pd or ("c" in af and "c" not in pf):
+            return None
+        return (0, 0)
+    tier = next(i for i, t in enumerate(_TIERS[asc]) if psc in t) if asc != psc else 0
+    if asc in ("IntLiteral", "FloatLiteral"):
+        tier += 1      # a literal is never an exact match; only relative order matters
+    if ad == pd:
+        v = 0
+    elif ad == 1:
+        v = 1
+    elif pd < ad:
+        v = 2
+    else:
+        return None
+    return (tier, v)
+
+
+def _c16_viable(sigs, args):
+    res = {}
+    for sid, nd, ps in sigs:
+        if not (nd <= len(args) <= len(ps)):
+            continue
+        cs = [_c16_conv(a, p) for a, p in zip(args, ps)]
+        if all(c is not None for c in cs):
+            res[sid] = cs
+    return res
+
+
+class C16(Prop):
+    id = "C16"
+    gens = ["GenLayout", "GenCasting"]
+    header = 0
+    n_quick = 1500
+    n_thorough = 60000
+    design_ref = "DESIGN.md §4 C16"
+    assumptions = [
+        "model: coq/model/Overload.v mirrors ImplicitConversion::find/get_rank (scalars and vectors) and find_function_type's tournament + vector-rank histogram (hand-written; tied by correspondence)",
+        "NumericRank/order, the scalar rank matrix and VectorRank::worst_to_best regenerated from typer/src/casting.rs; the shape of NumericRank::compare is checked by the translator",
+        "dominance is lexicographic in (numeric rank, vector rank) per argument (trusted definition OverloadProofs.dominates)",
+        "templates, matrices, enums, structs/objects as parameters are outside the model",
+    ]
+
+    def oracle(self, case, impl):
+        parts = case.split("|")
+        v1, _, v2 = impl.partition(" ; ")
+        if "REJECT" in impl or "BAD" in impl:
+            return None
+        if "PANIC" in impl:
+            return "type checker panicked"
+        if v1 != v2:
+            return "verdict depends on declaration order: %s vs %s" % (v1, v2)
+        if re.search(r"v1", case):
+            return None       # 1-vectors are outside the property's alphabet
+        sigs = []
+        for w in parts[0].split():
+            sid, nd, ps = w.split(":")
+            sigs.append((sid, int(nd), [_c16_type(p) for p in ps.split(",") if p]))
+        args = [_c16_type(a) for a in parts[1].split()]
+        viable = _c16_viable(sigs, args)
+        exact = [sid for sid, cs in viable.items() if all(c == (0, 0) for c in cs)]
+        if len(exact) == 1 and v1 != "SEL " + exact[0]:
+            return "overload %s matches the argument types exactly but the call gave %s" % (exact[0], v1)
+        if v1.startswith("SEL "):
+            sel = v1.split()[1]
+            if sel not in viable:
+                return "selected overload %s is not viable for these arguments" % sel
+            cs = viable[sel]
+            for sid, ds in viable.items():
+                if sid != sel and all(d <= c for d, c in zip(ds, cs)) and any(d < c for d, c in zip(ds, cs)):
+                    return "selected overload %s is dominated by viable overload %s" % (sel, sid)
+        return None
+
+    def nontrivial(self, case, impl):
+        return impl.startswith("SEL") or impl.startswith("AMBIGUOUS")
+
+    def kind(self, case):
+        parts = case.split("|")
+        return "overloads=%d params=%d" % (len(parts[0].split()), len(parts[1].split()))
+
+
+PROPS = {p.id: p for p in [C06(), C19(), C11(), C16()]}
